@@ -158,6 +158,9 @@ def list_method(ex, st, l, name, pos, kw, node):
         if l.h.name == "Local" and not l.h.args and pos[0].h is not None:
             l.h.args = [pos[0].h]
         ex.heap_set(st, "$seq", z3.Store(seq, l.t, Append1(s, x)), hint=l.h, fresh_obj=l.fresh)
+        if ety is not None and ety.kind in ("num", "int", "time", "fnum", "real"):
+            # eager instance of the sum axiom for lists of numbers
+            st.add_fact(smt.SumR(Append1(s, x)) == smt.SumR(s) + smt.numr(x))
         ex.on_event(st, "append", l, pos[0], node)
         return [(st, SV("val", Val.none, T("none")))]
     if name == "remove":
@@ -589,7 +592,10 @@ def parse_modifies(ex, st, env, entries):
                         preds.append(z3.And(Val.is_ref(tgt.t), o == Val.o(tgt.t)))
                     else:
                         tr = ex.as_ref(tgt, st, None)
-                        preds.append(o == tr.t)
+                        p0 = o == tr.t
+                        if name in ("$seq", "$dict") and tr.h is not None and tr.h.kind in ("list", "dict") and tr.h.name not in ("Any", "Local"):
+                            ex.role_alt[p0.get_id()] = role_of(o) == ex.rid(tr.h.name)
+                        preds.append(p0)
             finally:
                 ex.spec_mode -= 1
         for hn in heapnames:
@@ -622,11 +628,16 @@ def apply_contract(ex, st, fi, c, env, node):
     cur = ex.contract_stack[-1] if ex.contract_stack else None
     st.known["$calls"] = dict(st.known.get("$calls", {}))
     st.known["$calls"][fi.name] = st.known["$calls"].get(fi.name, 0) + 1
+    unitc = ex.contract_stack[0] if ex.contract_stack else None
+    for cc in ([cur] if cur is unitc or unitc is None else [cur, unitc]):
+        if cc is None:
+            continue
+        for key in (c.target, fi.name):
+            for text in cc.call_assumes.get(key, []):
+                ex.assumed_used.add(f"assumed before the call to {c.target} in {cc.target}: {text}")
+                st.assume(spec_eval(ex, st, dict(env), text))
     if cur is not None:
         for key in (c.target, fi.name):
-            for text in cur.call_assumes.get(key, []):
-                ex.assumed_used.add(f"assumed before the call to {c.target} in {cur.target}: {text}")
-                st.assume(spec_eval(ex, st, dict(env), text))
             if not ex.call_stack:        # checkpoints belong to the unit itself, not to inlined callees
                 for item in cur.at_call.get(key, []):
                     lab, text = item if isinstance(item, tuple) else (f"at-call-{key}", item)
